@@ -46,7 +46,6 @@ Qed.
 
 (* ---------- what a command can do to one served record ---------- *)
 Definition is_put (o : op) (id : Z) : bool := match o with OPut _ p _ => p_id p =? id | _ => false end.
-Definition is_bury_hook (o : op) : bool := match o with OBury _ _ => true | _ => false end.
 
 (* the possible relations between the served record of `id` before and after one command `o`
    started in state `s` *)
@@ -61,7 +60,7 @@ Inductive change (s : state) (o : op) (id : Z) : option sstore -> option sstore 
 | ch_up x y : s_state x = Offline -> s_pd x = false -> s_state y = Up -> s_pd y = false -> s_addr y = s_addr x ->
               change s o id (Some x) (Some y)
 | ch_bury x y : s_state x = Offline -> s_state y = Tombstone -> s_pd y = s_pd x -> s_addr y = s_addr x ->
-                (is_bury_hook o = true \/ tree_count s id = 0) -> change s o id (Some x) (Some y)
+                tree_count s id = 0 -> change s o id (Some x) (Some y)
 | ch_clean x : s_state x = Tombstone -> is_clean o = true -> change s o id (Some x) None.
 
 Lemma sstate_eqb_eq a b : sstate_eqb a b = true <-> a = b.
@@ -148,32 +147,36 @@ Proof.
   apply is_tomb_false in Et. destruct (s_state x); cbn in Eu; try discriminate; [reflexivity|exfalso; apply Et; reflexivity].
 Qed.
 
-(* buryStore, with the reason it was called *)
-Lemma do_bury_change s0 s id f s' r o :
-  do_bury s id f = (s', r) -> (is_bury_hook o = true \/ tree_count s0 id = 0) ->
+(* buryStore (since fix b5aa87e it looks at the region tree itself, under the lock): whoever calls it, a store is only
+   buried while the tree holds no peer on it *)
+Lemma do_bury_change s id f s' r :
+  do_bury s id f = (s', r) ->
   forall j, (sv s' j = sv s j) \/
-            (j = id /\ exists x, sv s id = Some x /\ s_state x = Offline /\ sv s' id = Some (with_state x Tombstone (s_pd x))).
+            (j = id /\ exists x, sv s id = Some x /\ s_state x = Offline /\ sv s' id = Some (with_state x Tombstone (s_pd x))
+                                 /\ tree_count s id = 0).
 Proof.
-  unfold do_bury. destruct (sv s id) as [x|] eqn:E; intros H Hw j; [|inv H; auto].
+  unfold do_bury. destruct (sv s id) as [x|] eqn:E; intros H j; [|inv H; auto].
   destruct (is_tomb x) eqn:Et; [inv H; auto|].
   destruct (sstate_eqb (s_state x) Up) eqn:Eu; [inv H; auto|].
+  destruct (negb (tree_count s id =? 0)) eqn:Ec; [inv H; auto|].
+  apply negb_false_iff, Z.eqb_eq in Ec.
   destruct (put_locked s id (with_state x Tombstone (s_pd x)) f 0) as [s1 ok] eqn:Epl. inv H.
   rewrite !sv_version_change, !(put_locked_sv _ _ _ _ _ _ _ Epl).
   zeq id j; [|rewrite andb_false_r; auto].
   rewrite ?Z.eqb_refl, ?andb_true_r. destruct ok; [|auto].
-  right. split; [reflexivity|]. exists x. split; [reflexivity|]. split; [|reflexivity].
+  right. split; [reflexivity|]. exists x. split; [reflexivity|]. split; [|split; [reflexivity|exact Ec]].
   apply is_tomb_false in Et. destruct (s_state x); cbn in Eu; try discriminate; [reflexivity|exfalso; apply Et; reflexivity].
 Qed.
 
 Lemma bury_shape_change s o id x :
-  s_state x = Offline -> (is_bury_hook o = true \/ tree_count s id = 0) ->
+  s_state x = Offline -> tree_count s id = 0 ->
   change s o id (Some x) (Some (with_state x Tombstone (s_pd x))).
 Proof. intros. apply ch_bury; auto. Qed.
 
 Lemma do_bury_change' s id f s' r :
   do_bury s id f = (s', r) -> forall j, change s (OBury id f) j (sv s j) (sv s' j).
 Proof.
-  intros H j. destruct (do_bury_change s s id f s' r (OBury id f) H (or_introl eq_refl) j) as [E|[-> [x [E1 [E2 E3]]]]].
+  intros H j. destruct (do_bury_change s id f s' r H j) as [E|[-> [x [E1 [E2 [E3 E4]]]]]].
   - rewrite E; constructor.
   - rewrite E1, E3. apply bury_shape_change; auto.
 Qed.
@@ -191,6 +194,7 @@ Lemma regions_do_bury s id f s' r : do_bury s id f = (s', r) -> regions s' = reg
 Proof.
   unfold do_bury. destruct (sv s id) as [x|]; intros H; [|inv H; reflexivity].
   destruct (is_tomb x); [inv H; reflexivity|]. destruct (sstate_eqb (s_state x) Up); [inv H; reflexivity|].
+  destruct (negb (tree_count s id =? 0)); [inv H; reflexivity|].
   destruct (put_locked s id (with_state x Tombstone (s_pd x)) f 0) as [s1 ok] eqn:Epl. inv H.
   rewrite regions_version_change. eapply regions_put_locked; eauto.
 Qed.
@@ -214,7 +218,7 @@ Proof.
     destruct (do_bury acc e f) as [s1 r1] eqn:Eb. cbn [fst].
     destruct R as [Rr Rs]. split; [rewrite (regions_do_bury _ _ _ _ _ Eb); exact Rr|].
     intros j. apply Z.eqb_eq in Et. rewrite (tree_count_regions s acc _ Rr) in Et.
-    destruct (do_bury_change s acc e f s1 r1 (OCheck order f) Eb (or_intror Et) j) as [E|[-> [y [E1 [E2 E3]]]]].
+    destruct (do_bury_change acc e f s1 r1 Eb j) as [E|[-> [y [E1 [E2 [E3 _]]]]]].
     - rewrite E. apply Rs.
     - destruct (Rs e) as [E|[z [Ez1 [Ez2 [Ez3 Ez4]]]]].
       + right. exists y. rewrite <- E. repeat split; auto.
@@ -419,13 +423,12 @@ Qed.
 
 (* ---------- statement 2: buried only while empty ---------- *)
 Lemma bury_only_empty_pf s o s' r id x y :
-  run_cmd s o = (s', r) -> is_bury_hook o = false ->
+  run_cmd s o = (s', r) ->
   sv s id = Some x -> sv s' id = Some y -> s_state x <> Tombstone -> s_state y = Tombstone ->
   tree_count s id = 0.
 Proof.
-  intros H Hh Ex Ey Nx Ty. pose proof (run_cmd_change _ _ _ _ H id) as C. rewrite Ex, Ey in C.
-  inversion C; subst; try congruence.
-  match goal with Hd : _ \/ _ |- _ => destruct Hd as [Hd|Hd]; [congruence|exact Hd] end.
+  intros H Ex Ey Nx Ty. pose proof (run_cmd_change _ _ _ _ H id) as C. rewrite Ex, Ey in C.
+  inversion C; subst; try congruence; assumption.
 Qed.
 
 (* ---------- statement 3: live stores have pairwise distinct addresses ---------- *)
